@@ -65,16 +65,18 @@ Definition stoich_of (rx : rxn) : side * side := (r_lhs rx, r_rhs rx).
 Definition rxns_of (H : net) : list rxn := (map_to_list (edges H)).*2.
 
 (** the label domain of the text format: what the parser's glued-coefficient pattern (digits, then a letter, then anything)
-    and its separators accept, i.e. a letter followed by any characters except white space and the four characters
+    and its separators accept, i.e. a letter followed by any 7-bit ASCII characters except white space and the four characters
     the format itself uses: '+' (term separator), '*' (coefficient separator), '|' (suffix separator), '>' (arrow).
     Covers identifiers, formulae and SMILES-like labels such as CC(=O)O, C#C, Fe(OH)3, c1ccccc1, C[C@H](N)C(=O)O. *)
+Definition is_ascii7 (a : ascii) : bool := (code a <? 128)%N.
 Definition label_char (a : ascii) : bool :=
-  negb (py_space a) && negb (is_char "+" a) && negb (is_char "*" a) && negb (is_char "|" a) && negb (is_char ">" a).
+  is_ascii7 a && negb (py_space a) && negb (is_char "+" a) && negb (is_char "*" a) && negb (is_char "|" a) && negb (is_char ">" a).
 Definition valid_label (s : string) : bool :=
   match to_chars s with a :: t => is_alpha a && forallb label_char t | [] => false end.
-(** a rule name survives  "| rule=<name>"  iff it is non-empty and blank-free *)
+(** a rule name survives  "| rule=<name>"  iff it is non-empty and blank-free (7-bit ASCII, as all text in this model:
+    Python's str methods and re classes treat further Unicode code points as white space) *)
 Definition valid_rule (s : string) : bool :=
-  match to_chars s with [] => false | l => forallb (λ a, negb (py_space a)) l end.
+  match to_chars s with [] => false | l => forallb (λ a, is_ascii7 a && negb (py_space a)) l end.
 
 Definition side_labels_ok (sd : side) : bool := bool_decide (map_Forall (λ s _, valid_label s = true) sd).
 Definition strings_domain (H : net) : bool :=
